@@ -171,7 +171,7 @@ One(i, f) == {[i |-> i, f |-> f]}
 FixedNum(t, w, lo, hi) == IsNumTok(t) /\ Len(t.int) = w /\ DVal(t.int) >= lo /\ DVal(t.int) <= hi
 
 \* fractional seconds: up to 9 digits are nanoseconds; more digits cannot be represented (nsx: the first nine
-\* are kept, an error or a result within one nanosecond is admissible); no digit at all: not specified
+\* are kept; an error, or a result within one nanosecond, is admissible); no digit at all: not specified
 FracNanos(fr) == LET n == IF Len(fr) > 9 THEN 9 ELSE Len(fr) IN DVal(SubSeq(fr, 1, n)) * (10 ^ (9 - n))
 
 \* one pattern word reads the literal from position i: the set of [i (next position), f (fields)]
@@ -265,7 +265,7 @@ Classify(f) ==
           IN IF f.wd # 0 /\ WeekdayOf(days) # f.wd THEN RInvalid
              ELSE IF f.ok = 1 /\ ~OffsetValid(f.off) THEN RInvalid
              ELSE IF f.ok = 2 THEN RD("zoned", InstantOf(days, secs, f.ns), IF f.nsx THEN 1 ELSE 0, TRUE, f.tz)
-             ELSE RD("fixed", InstantOf(days, secs - f.off, f.ns), IF f.nsx THEN 1 ELSE 0, f.soft, <<>>)
+             ELSE RD("fixed", InstantOf(days, secs - f.off, f.ns), IF f.nsx THEN 1 ELSE 0, f.soft \/ f.nsx, <<>>)
 
 \* all readings of a literal (its date tokens) by the documented patterns
 Readings(toks) == UNION {{Classify(f) : f \in FullMatches(Patterns[p], toks)} : p \in DOMAIN Patterns}
